@@ -54,13 +54,16 @@ func (r *Rule) Inflected(s string) string {
 
 func (r *Rule) inflected(s string) string {
 	if res := r.compiledIrregular.FindStringSubmatch(s); len(res) >= 3 {
-		var buf strings.Builder
+		// the case-insensitive match also folds runes such as 'ſ' that ToLower keeps: no table entry then
+		if replacement, ok := r.irregularMap[strings.ToLower(res[2])]; ok {
+			var buf strings.Builder
 
-		buf.WriteString(res[1])
-		buf.WriteString(res[2][0:1])
-		buf.WriteString(r.irregularMap[strings.ToLower(res[2])][1:])
+			buf.WriteString(res[1])
+			buf.WriteString(res[2][0:1])
+			buf.WriteString(replacement[1:])
 
-		return buf.String()
+			return buf.String()
+		}
 	}
 
 	if r.compiledUninflected.MatchString(s) {
